@@ -7,7 +7,10 @@ MANIFEST = {
     "modules": ["Logging", "Exec", "Trace_Ser", "Trace_Same"],
     "text": "Log: Logging.tla places mahf's own Logger in configurations run by the reference interpreter (Exec.tla) with "
             "a caller-supplied rule set (always / never / every-2 / scripted triggers; K0 / U / iteration / missing sources; "
-            "repeated names). TLC enumerates all programs up to the bound x scripts x 13 rule sets (incl. shadowed stateful triggers) and checks "
+            "repeated names), given by the LogConfig calls that make it (with / with_auto / with_many / with_common, "
+            "expanded by Expand: the shorthand stands for the number of evaluations and the progress of the iterations). "
+            "TLC enumerates all programs up to the bound x scripts x 27 rule sets (incl. shadowed stateful triggers, late "
+            "triggers that bring new names in later steps, every convenience) and checks "
             "OneStepPerFiringExecution, StepsExact (one entry per fired rule, value at that moment, null for a missing "
             "source, iteration first) and RuleOrderKept against a ghost record of logger executions; every enumerated case "
             "and seeded random ones run on the real code with a real LogConfig, and TLC validates the resulting log three "
@@ -16,9 +19,16 @@ MANIFEST = {
             "serialisation (skeleton = program) and that a clone serialises identically; for all 21 templates over the "
             "parameter grid Trace_Ser.tla requires serialisability, clone identity, and 'same serialisation iff same "
             "template and parameter values' (incl. configurations differing only in an identifier type parameter, shipped "
-            "and user-defined with colliding short names). Experiment runner: Trace_Same.tla requires configuration.ron to "
+            "and user-defined with colliding short names; every parameter of every template and of every single-component "
+            "pseudo-template changed on its own; every condition over every parameter -- lens and equality checker "
+            "included -- in every place a condition can stand) and, for configurations assembled through every entry point "
+            "of the builder API from a builder term (build, build_component, Block::new, while_/if_/if_else_/scope_, the "
+            "list and single-component constructors of Loop/Branch/Scope, do_many_, do_if_some_, Configuration::new/from/"
+            "into_builder/into_inner over lists of 0/1/2 items, nested), 'same serialisation iff same structure Str(term)', "
+            "the structure being computed by the specification. Experiment runner: Trace_Same.tla requires configuration.ron to "
             "equal the direct serialisation of the configuration that was run (also when the folder is reused) and each "
-            "exported run log to decode to the log of the same run made directly.",
+            "exported run log to decode to the log of the same run made stand-alone (whose log rules are spelled out "
+            "where the runner's set-up uses the with_common shorthand).",
     "technique": "TLA+ spec + TLC exhaustive case enumeration + TLC trace validation of real logs / exports / serialisations",
     "design_ref": "DESIGN.md §6 C15",
     "note": "logger placements without a visible pass counter are excluded (the caller's state holds one); differences only in "
@@ -34,7 +44,7 @@ def cfg_mc(n, l, export):
 
 
 RULE = ("cases = (program with Logger placements, condition script, rule set) exported from TLC (all programs up to the "
-        "bound x scripts x 11 rule sets) + seeded random ones, each run on the real code with a real LogConfig; plus the "
+        "bound x scripts x 27 rule sets, one in three in the quick tier) + seeded random ones, each run on the real code with a real LogConfig; plus the "
         "configuration-export cases; non-trivial = the run produced a non-empty log or ended in error; distinct = distinct cases")
 
 DESCRIBE = dict(c03.DESCRIBE)
@@ -46,12 +56,12 @@ def run_logging(ctx):
     ctx.tlc_mc("MC_Logging", cfg_mc(2, 3, False) if q else cfg_mc(3, 3, False), "mc-logging", workers=4 if q else 8,
                timeout=3000, java_opts=c03.JAVA)
     ex = ctx.tlc_mc("MC_Logging", cfg_mc(2, 3, True), "export-logging", workers=1, timeout=3000, java_opts=c03.JAVA)
-    cases, n = c03.export_cases(ctx, ex["out"], "enum-logging", stride=2 if q else 1)
+    cases, n = c03.export_cases(ctx, ex["out"], "enum-logging", stride=3 if q else 1)
     tr = os.path.join(ctx.work, "enum-logging.trace.ndjson")
     ctx.harness("exec", "replay", **{"in": cases, "out": tr})
     ctx.validate("Trace_Exec", c03.CFG_TRACE, tr, "enum-logging", DESCRIBE, {"driver": "exec"}, timeout=3000)
     tr = os.path.join(ctx.work, "random-logging.trace.ndjson")
-    ctx.harness("exec", "random", out=tr, seed=ctx.seed, n=200 if q else 10000, stmts=20, logging=1)
+    ctx.harness("exec", "random", out=tr, seed=ctx.seed, n=400 if q else 10000, stmts=20, logging=1)
     ctx.validate("Trace_Exec", c03.CFG_TRACE, tr, "random-logging", DESCRIBE, {"driver": "exec"}, timeout=3000)
 
 
@@ -63,9 +73,119 @@ SER_DESCRIBE = {
 }
 
 
+def T(op, a=(), e=(), v="-"):
+    return {"op": op, "v": v, "a": list(a), "e": list(e)}
+
+
+def struct_terms(quick):
+    """Builder terms: every entry point of the builder API (build, build_component, Block::new, while_/if_/if_else_/scope_,
+    the constructors of Loop / Branch / Scope taking a list or one component, do_many_, do_if_some_, Configuration::new /
+    from / into_builder / into_inner) over item lists of 0, 1 and 2 elements, nested builders included."""
+    X, Y = T("leaf", v="A"), T("leaf", v="B")
+    lists = [[], [X], [X, Y], [Y, X], [T("bc", [X])], [T("bc")], [X, T("bc", [Y])], [T("bc", [X, Y])], [T("bc", [T("bc", [X])])],
+             [T("blocknew", [X])], [T("blocknew")], [T("many", [X, Y])], [T("many")], [T("none"), X], [T("some", [X])],
+             [T("many", [X]), T("bc", [Y])]]
+    if not quick:
+        lists += [[X, X], [T("bc", [X]), T("bc", [Y])], [T("bc", [T("bc")])], [T("blocknew", [T("blocknew", [X])])],
+                  [T("while", [X])], [T("scope", [T("bc", [X])])]]
+    wrappers = ["bc", "blocknew", "while", "loopvec", "if", "branchvec", "scope", "scopevec"]
+    boxes = ["loopbox", "branchbox", "scopebox"]
+    singles = [X, Y, T("bc", [X]), T("bc"), T("bc", [X, Y]), T("bc", [T("bc", [X])]), T("blocknew", [X]), T("while", [X]), T("loopbox", [X])]
+    terms = [T("build", l) for l in lists]
+    for w in wrappers:
+        for l in lists:
+            terms.append(T("build", [T(w, l)]))
+        for l in lists[:6]:
+            terms.append(T("confnew", [T(w, l)]))
+            terms.append(T("build", [X, T(w, l)]))
+    for w in boxes:
+        for c in singles:
+            terms.append(T("build", [T(w, [c])]))
+            terms.append(T("from", [T(w, [c])]))
+    for c in singles:
+        terms.append(T("confnew", [c]))
+        terms.append(T("from", [c]))
+    for a in lists[:7]:
+        for e in lists[:4] + [[T("bc", [X])]]:
+            terms.append(T("build", [T("ifelse", a, e)]))
+            terms.append(T("build", [T("branchelsevec", a, e)]))
+    for a in singles[:5]:
+        for e in singles[:4]:
+            terms.append(T("build", [T("branchelsebox", [a], [e])]))
+    base = [T("build", l) for l in lists[:8]] + [T("confnew", [c]) for c in singles[:5]]
+    for c in base:
+        terms.append(T("rebuild", [c]))
+        terms.append(T("reinner", [c]))
+        terms.append(T("rebuild", [T("rebuild", [c])]))
+    return terms
+
+
+def cond_specs():
+    """Conditions over every parameter (one changed at a time, function-like parameters such as the lens and the equality
+    checker included) in every place a condition can stand; `via` selects one of two equivalent constructors."""
+    base = [("chance", {"p": 0.25}, {"p": [0.5]}),
+            ("lt", {"n": 3, "lens": "iterations", "via": "new"}, {"n": [4], "lens": ["evaluations"], "via": ["short"]}),
+            ("lt", {"n": 3, "lens": "evaluations", "via": "new"}, {"via": ["short"]}),
+            ("every", {"n": 2, "lens": "iterations", "via": "new"}, {"n": [3], "lens": ["evaluations"], "via": ["short"]}),
+            ("change", {"checker": "eq", "lens": "iterations"}, {"checker": ["delta:2", "delta:5"], "lens": ["evaluations"]}),
+            ("change", {"checker": "delta:2", "lens": "evaluations"}, {"checker": ["delta:5"]}),
+            ("optimum", {"epsilon": 0.125}, {"epsilon": [0.25]}),
+            ("decomp", {"alpha": 3}, {"alpha": [4]}),
+            ("synth", {"beta": 0.125}, {"beta": [0.25]})]
+    out = []
+    for place in ["while", "if", "ifelse", "not", "and1", "and2", "or1", "nested"]:
+        for kind, b, var in base:
+            ps = [dict(b)]
+            for k, vals in var.items():
+                for v in vals:
+                    ps.append(dict(b, **{k: v}))
+            for p in ps:
+                q = dict(p, kind=kind, place=place)
+                if q not in out:
+                    out.append(q)
+    return out
+
+
+def used(template, k):
+    """the `comp:` pseudo-templates share one parameter record; a component reads only some of it"""
+    if not template.startswith("comp:"):
+        return True
+    c = template[5:]
+    return (k in ("popsize", "select") or (k == "pc" and "Crossover" in c) or (k == "dev" and c.endswith("_after_eval")) or
+            (k == "rm" and (c.endswith("_after_eval") or c in ("NormalMutation", "UniformMutation", "PartialRandomSpread",
+                                                              "BitFlipMutation", "PartialRandomBitstring"))))
+
+
+def perturbed(sp):
+    """Every parameter of every template (pseudo-templates of single components included) changed on its own: the first
+    parameter set of each template with one value replaced; sets the constructor rejects are skipped (`opt`)."""
+    out, seen = [], set()
+    for s in sp:
+        if s["template"] in seen or not s["params"]:
+            continue
+        seen.add(s["template"])
+        for k, v in s["params"].items():
+            if isinstance(v, bool) or not isinstance(v, (int, float)) or not used(s["template"], k):
+                continue
+            for w in ([v + 1, v + 2] if isinstance(v, int) else [v * 0.5 + 0.0625, v * 0.25 + 0.03125]):
+                out.append(dict(s, params=dict(s["params"], **{k: w}), opt=1))
+    return out
+
+
 def run_ser(ctx):
-    from checks.templates_grid import specs
+    from checks.templates_grid import specs, component_specs
     sp = specs(ctx.quick, [0], [1, 7])
+    have = {json.dumps([s["template"], s["params"], s["n"]], sort_keys=True) for s in sp}
+    for s in perturbed(sp) + component_specs(True, [0], [1])[::3] + perturbed(component_specs(True, [0], [1])):
+        k = json.dumps([s["template"], s["params"], s["n"]], sort_keys=True)
+        if k not in have:
+            have.add(k)
+            sp.append(dict(s, run=len(sp)))
+    REAL2 = {"kind": "real", "f": 0, "dim": 2, "lo": -1.0, "hi": 1.0}
+    for t in struct_terms(ctx.quick):
+        sp.append({"run": len(sp), "template": "struct", "params": {"term": t}, "n": 1, "seed": 0, "eval": "seq", "prob": REAL2})
+    for p in cond_specs():
+        sp.append({"run": len(sp), "template": "condp", "params": p, "n": 1, "seed": 0, "eval": "seq", "prob": REAL2})
     # configurations differing only in an identifier type parameter, incl. user-defined ones with colliding short names
     for ident in ["default", "mahf::Global", "mahf::A", "mahf::B", "user::A", "user::nested::A", "user::Global"]:
         sp.append({"run": len(sp), "template": "ident", "params": {"id": ident}, "n": 1, "seed": 0, "eval": "seq",
@@ -116,6 +236,8 @@ def replay(ctx, rp):
         return ctx.finish(RULE)
     if rp["meta"].get("driver") == "templates-ser":
         bad = rp["first_unmatched"]
+        if bad["t"] == "struct":
+            bad = dict(bad, params={"term": bad["term"]})
         spath = os.path.join(ctx.work, "replay.specs.ndjson")
         with open(spath, "w") as f:
             f.write(json.dumps({"template": bad["t"], "params": bad["params"], "n": bad["n"], "seed": 0, "eval": "seq",
